@@ -131,7 +131,10 @@ def gen_plan(seed, tier):
          # (no hello from the peer before it)
          "before_hello": r.chance(0.2),
          # the application's close callback of the victim's worker fails
-         "close_cb_raises": r.chance(0.3)}
+         "close_cb_raises": r.chance(0.3),
+         # when the slow reader finally reads, the victim's socket also
+         # reports an exceptional condition (urgent data) in the same select
+         "oob_when_unblocked": r.chance(0.3)}
   if max(len(m) for m in msgs) > 20000 and cfg["recv_mode"] == "dribble":
     cfg["recv_mode"] = "choose"
   return {"prop": PROP, "seed": seed, "cfg": cfg,
@@ -443,6 +446,9 @@ def _drive_sw(sim, plan, known, hit):
       sim.probes["victim_had_unsent_replies"] += int(
         v.sock.peer.tx_credit == 0)
     v.sock.peer.tx_credit = None
+    if cfg.get("oob_when_unblocked") and not v.sock.peer.closed:
+      v.sock.peer.exc_flag = True
+      sim.probes["exceptional_condition_with_unsent_output"] += 1
     _drain(sim, "switch read")
     sim.advance(0.25)
     _drain(sim, "switch read")
